@@ -179,6 +179,8 @@ struct SimState {
     issue_order: Vec<usize>,
     complete_order: Vec<usize>,
     fetched: Vec<String>,
+    /// the client's stored package logs (refreshed by fetch_packages; downloads answer from them)
+    client_logs: BTreeMap<String, Vec<Release>>,
     fired: Vec<(String, String)>, // (fault kind, what)
     events: Vec<String>,
     /// draws requested by the transport are served through this queue of pre-drawn values
@@ -270,7 +272,14 @@ impl Sim {
                             .collect()
                     };
                     if missing.is_empty() {
-                        self.st.borrow_mut().fetched.extend(names.iter().cloned());
+                        // the client stores the refreshed logs; later downloads answer from them
+                        let mut st = self.st.borrow_mut();
+                        for n in names {
+                            let rels = st.registry.packages.get(n).cloned().unwrap_or_default();
+                            st.client_logs.insert(n.clone(), rels);
+                        }
+                        st.fetched.extend(names.iter().cloned());
+                        drop(st);
                         Answer::Fetch(Ok(()))
                     } else {
                         // which missing name the server reports first is unspecified
@@ -284,8 +293,8 @@ impl Sim {
             }
             ReqKind::Exact(name, version) => {
                 let found = {
-                    let st = self.st.borrow();
-                    st.registry.exact(name, version).map(|r| r.cloned())
+                    let view = self.client_view(name);
+                    view.exact(name, version).map(|r| r.cloned())
                 };
                 match found {
                     Err(()) => Answer::Exact(Err(ClientError::PackageDoesNotExist {
@@ -304,8 +313,8 @@ impl Sim {
             }
             ReqKind::Latest(name, req) => {
                 let found = {
-                    let st = self.st.borrow();
-                    st.registry.latest(name, req).map(|r| r.cloned())
+                    let view = self.client_view(name);
+                    view.latest(name, req).map(|r| r.cloned())
                 };
                 match found {
                     Err(()) => Answer::Latest(Err(ClientError::PackageDoesNotExist {
@@ -348,6 +357,23 @@ impl Sim {
         if let Some(w) = waker {
             w.wake();
         }
+    }
+
+    /// What the client knows about `name` when a download is answered: its stored log (as of
+    /// the last `fetch_packages` that included the name), or, if it has none, a log fetched on
+    /// demand (`Client::package` in warg-client loads from storage first, then fetches).
+    fn client_view(&self, name: &str) -> Registry {
+        let mut st = self.st.borrow_mut();
+        if !st.client_logs.contains_key(name) {
+            if let Some(rels) = st.registry.packages.get(name).cloned() {
+                st.client_logs.insert(name.to_string(), rels);
+            }
+        }
+        let mut view = Registry::default();
+        if let Some(rels) = st.client_logs.get(name) {
+            view.packages.insert(name.to_string(), rels.clone());
+        }
+        view
     }
 
     /// The content transfer itself: where download faults land.
@@ -684,7 +710,10 @@ pub fn run(run: &mut Run) {
         run.harness(format!("cannot write content pool: {e}"));
         return;
     }
-    let t = &mut *run.tape;
+    // every access to the tape in this function goes through one raw pointer (the simulated
+    // transport draws from it too)
+    let tape_ptr: *mut crate::tape::Tape = run.tape as *mut _;
+    let t: &mut crate::tape::Tape = unsafe { &mut *tape_ptr };
 
     // ---- swarm: sizes, workload family, fault kinds, scheduler flavour, knobs ----
     let faulty = t.chance(1, 2);
@@ -745,11 +774,146 @@ pub fn run(run: &mut Run) {
             .collect();
         registry.packages.insert(name.to_string(), rels);
     }
+    // multi-step histories: the same resolver is used for several resolve calls while the
+    // registry changes in between (new releases, yanks, new packages)
+    let nsteps = *t.pick(&[1usize, 1, 1, 2, 3]);
+    let error_bias = *t.pick(&[0u64, 0, 1, 3]); // how often to ask for something that does not exist
+    t.event(format!(
+        "scenario faulty={faulty} plan={plan:?} flavour={flavour:?} eager={eager_timers} lat={base_latency}+{per_byte}/B±{jitter} bar={with_bar} steps={nsteps} handover={handover}"
+    ));
 
+    let sim = Rc::new(Sim {
+        st: RefCell::new(SimState {
+            registry: registry.clone(),
+            content_dir: content_dir.clone(),
+            tasks: vec![None],
+            ready: Vec::new(),
+            timers: BinaryHeap::new(),
+            pending: Vec::new(),
+            now: 0,
+            seq: 0,
+            current_task: 0,
+            plan: plan.clone(),
+            base_latency,
+            jitter,
+            per_byte,
+            issue_order: Vec::new(),
+            complete_order: Vec::new(),
+            fetched: Vec::new(),
+            client_logs: BTreeMap::new(),
+            fired: Vec::new(),
+            events: Vec::new(),
+            lost_counter: 0,
+        }),
+        tape: RefCell::new(tape_ptr),
+    });
+    let _guard = verif_seam::install(Rc::new(SimHandle(sim.clone())));
+
+    let bar_log = Rc::new(RefCell::new(Vec::new()));
+    let bar: Option<Box<dyn ProgressBar>> = if with_bar {
+        Some(Box::new(Bar(bar_log.clone())))
+    } else {
+        None
+    };
+
+
+    // ---- the resolver lives across the steps ----
+    let deps_dir = run.scratch.join(format!("c20-deps-{}", run.index));
+    enum Resolvers {
+        Plain(RegistryPackageResolver),
+        Hand(wac_cli::PackageResolver),
+    }
+    let mut resolvers = {
+        let deps_dir = deps_dir.clone();
+        let root: Pin<Box<dyn Future<Output = Result<Resolvers, String>>>> = if handover {
+            Box::pin(async move {
+                wac_cli::PackageResolver::new(deps_dir, Default::default(), None)
+                    .await
+                    .map(Resolvers::Hand)
+                    .map_err(|e| format!("resolver construction failed: {e}"))
+            })
+        } else {
+            Box::pin(async move {
+                RegistryPackageResolver::new(None, bar)
+                    .await
+                    .map(Resolvers::Plain)
+                    .map_err(|e| format!("client construction failed: {e}"))
+            })
+        };
+        match drive(&sim, root, Flavour::Fifo, 0, 64) {
+            (Some(Ok(r)), _, _) => r,
+            (Some(Err(e)), _, _) => {
+                run.harness(e);
+                return;
+            }
+            _ => {
+                run.harness("resolver construction did not complete");
+                return;
+            }
+        }
+    };
+
+    for step in 0..nsteps {
+    let t: &mut crate::tape::Tape = unsafe { &mut *tape_ptr };
+    if step > 0 {
+        // ---- the registry changes between resolve calls ----
+        let names_now: Vec<String> = registry.packages.keys().cloned().collect();
+        let what = match t.draw(4) {
+            0 if names_now.len() < NAME_POOL.len() => {
+                let fresh: Vec<&str> = NAME_POOL.iter().copied().filter(|n| !registry.packages.contains_key(*n)).collect();
+                let n = fresh[t.index(fresh.len())];
+                let v = Version::parse(*t.pick(VERSION_POOL)).unwrap();
+                registry.packages.insert(n.to_string(), vec![Release { version: v.clone(), yanked: false }]);
+                format!("publish new package {n}@{v}")
+            }
+            1 => {
+                let n = &names_now[t.index(names_now.len())];
+                let rels = registry.packages.get_mut(n).unwrap();
+                let live: Vec<usize> = (0..rels.len()).filter(|i| !rels[*i].yanked).collect();
+                if live.is_empty() {
+                    "no change".to_string()
+                } else {
+                    let i = live[t.index(live.len())];
+                    rels[i].yanked = true;
+                    format!("yank {n}@{}", rels[i].version)
+                }
+            }
+            _ => {
+                let n = &names_now[t.index(names_now.len())];
+                let rels = registry.packages.get_mut(n).unwrap();
+                let unused: Vec<&str> = VERSION_POOL
+                    .iter()
+                    .copied()
+                    .filter(|v| !rels.iter().any(|r| r.version.to_string() == *v))
+                    .collect();
+                if unused.is_empty() {
+                    "no change".to_string()
+                } else {
+                    let v = Version::parse(unused[t.index(unused.len())]).unwrap();
+                    rels.push(Release { version: v.clone(), yanked: false });
+                    format!("publish {n}@{v}")
+                }
+            }
+        };
+        t.event(format!("step {step}: registry change: {what}"));
+        run.probe("multi_step_resolves");
+        let mut st = sim.st.borrow_mut();
+        st.registry = registry.clone();
+        st.fired.clear();
+        st.issue_order.clear();
+        st.complete_order.clear();
+        st.tasks = vec![None];
+        st.ready.clear();
+        // requests still in flight belong to detached tasks of the previous call
+        st.timers.clear();
+        for p in st.pending.iter_mut() {
+            *p = None;
+        }
+    }
+    let names: Vec<String> = registry.packages.keys().cloned().collect();
     // ---- requested keys ----
     let nkeys = t.range(1, 6) as usize;
     let mut keys: Vec<Key> = Vec::new();
-    let error_bias = *t.pick(&[0u64, 0, 1, 3]); // how often to ask for something that does not exist
     let mut attempts = 0;
     while keys.len() < nkeys && attempts < 40 {
         attempts += 1;
@@ -807,7 +971,6 @@ pub fn run(run: &mut Run) {
     // ---- hand-over family: some keys are also on the (simulated) disk ----
     let mut disk: Vec<Option<Vec<u8>>> = vec![None; keys.len()];
     let mut document_text = String::new();
-    let deps_dir = run.scratch.join(format!("c20-deps-{}", run.index));
     if handover {
         let _ = std::fs::remove_dir_all(&deps_dir);
         document_text.push_str("package test:doc;\n");
@@ -886,9 +1049,6 @@ pub fn run(run: &mut Run) {
     }
 
     // ---- describe the scenario in the trace ----
-    t.event(format!(
-        "scenario faulty={faulty} plan={plan:?} flavour={flavour:?} eager={eager_timers} lat={base_latency}+{per_byte}/B±{jitter} bar={with_bar}"
-    ));
     for (n, rels) in &registry.packages {
         t.event(format!(
             "registry {n}: {}",
@@ -950,48 +1110,11 @@ pub fn run(run: &mut Run) {
         })
         .collect();
 
-    let sim = Rc::new(Sim {
-        st: RefCell::new(SimState {
-            registry: registry.clone(),
-            content_dir: content_dir.clone(),
-            tasks: vec![None],
-            ready: Vec::new(),
-            timers: BinaryHeap::new(),
-            pending: Vec::new(),
-            now: 0,
-            seq: 0,
-            current_task: 0,
-            plan: plan.clone(),
-            base_latency,
-            jitter,
-            per_byte,
-            issue_order: Vec::new(),
-            complete_order: Vec::new(),
-            fetched: Vec::new(),
-            fired: Vec::new(),
-            events: Vec::new(),
-            lost_counter: 0,
-        }),
-        tape: RefCell::new(run.tape as *mut _),
-    });
-    let _guard = verif_seam::install(Rc::new(SimHandle(sim.clone())));
-
-    let bar_log = Rc::new(RefCell::new(Vec::new()));
-    let bar: Option<Box<dyn ProgressBar>> = if with_bar {
-        Some(Box::new(Bar(bar_log.clone())))
-    } else {
-        None
-    };
-
     let step_budget = 64 + 32 * keys.len() as u64 + 200 * (plan.dup_poll.min(1));
     type Resolved<'k> = Result<IndexMap<BorrowedPackageKey<'k>, Vec<u8>>, Error>;
     let keys_ref = &keys;
-    let root: Pin<Box<dyn Future<Output = Result<(Resolved<'_>, Vec<String>), String>> + '_>> = if let Some(doc) = &document {
-        let deps_dir = deps_dir.clone();
-        Box::pin(async move {
-            let mut resolver = wac_cli::PackageResolver::new(deps_dir, Default::default(), None)
-                .await
-                .map_err(|e| format!("resolver construction failed: {e}"))?;
+    let root: Pin<Box<dyn Future<Output = Result<(Resolved<'_>, Vec<String>), String>> + '_>> = match (&mut resolvers, &document) {
+        (Resolvers::Hand(resolver), Some(doc)) => Box::pin(async move {
             // re-key the result by the requested keys (the result borrows from the document)
             let mut extra = Vec::new();
             let r = resolver.resolve(doc).await.map(|m| {
@@ -1013,14 +1136,15 @@ pub fn run(run: &mut Run) {
                 out
             });
             Ok((r, extra))
-        })
-    } else {
-        Box::pin(async {
-            let resolver = RegistryPackageResolver::new(None, bar)
-                .await
-                .map_err(|e| format!("client construction failed: {e}"))?;
-            Ok((resolver.resolve(&key_map).await, Vec::new()))
-        })
+        }),
+        (Resolvers::Plain(resolver), _) => {
+            let key_map = &key_map;
+            Box::pin(async move { Ok((resolver.resolve(key_map).await, Vec::new())) })
+        }
+        _ => {
+            run.harness("inconsistent resolver / document");
+            return;
+        }
     };
 
     crate::seams::clear_last_panic();
@@ -1036,7 +1160,6 @@ pub fn run(run: &mut Run) {
         drop(tasks);
         n
     };
-    drop(_guard);
 
     // ---- collect what happened ----
     let (fired, issue_order, complete_order, now) = {
@@ -1056,7 +1179,7 @@ pub fn run(run: &mut Run) {
     if complete_order.len() >= 2 {
         let pos: Vec<usize> = complete_order
             .iter()
-            .map(|c| issue_order.iter().position(|i| i == c).unwrap())
+            .filter_map(|c| issue_order.iter().position(|i| i == c))
             .collect();
         if pos.len() == issue_order.len() {
             run.cover(
@@ -1089,10 +1212,9 @@ pub fn run(run: &mut Run) {
         }
     };
     run.add("executor_steps", steps);
-    run.tape.event(format!("stop {stop:?} leftover_tasks={leftover}"));
+    unsafe { &mut *tape_ptr }.event(format!("stop {stop:?} leftover_tasks={leftover}"));
 
     if handover {
-        let _ = std::fs::remove_dir_all(&deps_dir);
         run.probe("handover_runs");
         if disk.iter().any(|d| d.is_some()) && disk.iter().any(|d| d.is_none()) {
             run.probe("handover_disk_and_registry_mixed");
@@ -1344,13 +1466,16 @@ pub fn run(run: &mut Run) {
             }
         }
     }
-    run.tape.event(format!("outcome {outcome_label}"));
+    unsafe { &mut *tape_ptr }.event(format!("outcome {outcome_label}"));
     run.cover("outcomes", outcome_label);
     if with_bar && result.is_ok() {
         let log = bar_log.borrow();
         let incs = log.iter().filter(|l| l.starts_with("inc")).count();
         run.add("bar_incs", incs as u64);
     }
+    } // steps
+    let _ = std::fs::remove_dir_all(&deps_dir);
+    drop(_guard);
 }
 
 fn show_keys(keys: &[Key]) -> String {
